@@ -23,8 +23,8 @@ ID = 'C14'
 LEVEL = 'model_checking'
 RULE = ('state = contents of one set / one map; transitions = UPDATE, GET_AND_UPDATE, GET, MEM, SIZE, ITER{CONS}, MAP{..} with every key of '
         'the universe and every value; closure of the reachable space (no depth bound); plus every literal of <=3 keys')
-BOUND = {'quick': '7 key types, |K|=3, values {0,1}: all 8 sets and 27 maps per type, all operations in every state',
-         'thorough': '13 key types, |K|=4 (16 sets, 81 maps per type), literals of <=4 keys'}
+BOUND = {'quick': '7 key types, |K|=4: all 16 sets and 81 maps (nat values {0,1}) per type, plus maps with string / bool values (falsy Python objects) for 3 key types; every operation in every state; literals of <=3 keys',
+         'thorough': '13 key types, |K|=4, the three value types for every key type, literals of <=4 keys'}
 ASSUMPTIONS = ['the reference order of mc.ref.mtypes (validated by C03 against the statement\'s rules)']
 LEVEL_TEXT = ('the reachable state space per key type is finite and is explored completely with every operation applied in every state; '
               'assurance is exhaustive for the key universes, which are chosen so that naive orders disagree with the Tezos order')
@@ -36,7 +36,7 @@ KEYS = {
     STRING: ['a', 'B', 'ab', ''],
     PII: [(1, 5), (2, 3), (1, -5), (10, 0)],
     ('option', INT): [None, ('Some', 0), ('Some', -1), ('Some', 5)],
-    ('or', INT, NAT): [('L', 5), ('R', 0), ('L', -1), ('R', 7)],
+    ('or', INT, NAT): [('R', 7), ('L', 5), ('R', 0), ('L', -1)],
     ('address',): [('tz1', T.HF, ''), ('KT1', T.H0, ''), ('tz2', T.H0, ''), ('KT1', T.H0, 'a')],
     ('bytes',): [b'\x00', b'', b'\xff', b'\x00\x01'],
     NAT: [0, 10, 2, 9],
@@ -49,15 +49,23 @@ KEYS = {
 QUICK_TYPES = [INT, STRING, PII, ('option', INT), ('or', INT, NAT), ('address',), ('bytes',)]
 
 
+VALS = {'map': (NAT, [0, 1]), 'mapS': (STRING, ['', 'a']), 'mapB': (E.BOOL, [False, True])}
+
+
 def shards(tier, seed):
     types = QUICK_TYPES if tier == 'quick' else list(KEYS)
-    n = 3 if tier == 'quick' else 4
-    return [(kind, t, n) for t in types for kind in ('set', 'map')]
+    n = 4
+    out = [(kind, t, n) for t in types for kind in ('set', 'map')]
+    # maps whose values are falsy Python objects ('' / False): "absent" must never be confused with "bound to an empty value"
+    out += [(kind, t, n) for t in (types[:3] if tier == 'quick' else types) for kind in ('mapS', 'mapB')]
+    return out
 
 
 def programs(kind, tk, K):
     """[(label, code, next_state?)]: code runs on a stack whose top is the collection."""
     out = []
+    if kind != 'set':
+        tv, (v0, v1) = VALS[kind]
     if kind == 'set':
         for k in K:
             for b in (True, False):
@@ -66,17 +74,18 @@ def programs(kind, tk, K):
         out.append(('SIZE', [P('SIZE')], False))
         out.append(('ITER', [P('NIL', TY(tk)), P('SWAP'), P('ITER', [P('CONS')])], False))
     else:
-        ot = ('option', NAT)
+        ot = ('option', tv)
         for k in K:
-            for v in (None, ('Some', 0), ('Some', 1)):
+            for v in (None, ('Some', v0), ('Some', v1)):
                 out.append((f'UPDATE {"None" if v is None else "Some"}', [PUSH(ot, v), PUSH(tk, k), P('UPDATE')], True))
                 out.append((f'GET_AND_UPDATE {"None" if v is None else "Some"}', [PUSH(ot, v), PUSH(tk, k), P('GET_AND_UPDATE')], True))
             out.append(('GET', [PUSH(tk, k), P('GET')], False))
             out.append(('MEM', [PUSH(tk, k), P('MEM')], False))
         out.append(('SIZE', [P('SIZE')], False))
-        out.append(('ITER', [P('NIL', TY(('pair', tk, NAT))), P('SWAP'), P('ITER', [P('CONS')])], False))
+        out.append(('ITER', [P('NIL', TY(('pair', tk, tv))), P('SWAP'), P('ITER', [P('CONS')])], False))
         out.append(('MAP cdr', [P('MAP', [P('CDR')])], False))
-        out.append(('MAP +1', [P('MAP', [P('CDR'), P('PUSH', TY(NAT), I(1)), P('ADD')])], False))
+        if tv == NAT:
+            out.append(('MAP +1', [P('MAP', [P('CDR'), P('PUSH', TY(NAT), I(1)), P('ADD')])], False))
         out.append(('MAP car', [P('MAP', [P('CAR')])], False))
     return out
 
@@ -103,7 +112,7 @@ def step(code, slots, ctx):
 
 def explore(kind, tk, n, r: Result, only=None):
     K = KEYS[tk][:n]
-    tc = ('set', tk) if kind == 'set' else ('map', tk, NAT)
+    tc = ('set', tk) if kind == 'set' else ('map', tk, VALS[kind][0])
     ctx = M.make_context()
     progs = programs(kind, tk, K)
     ts = T.t_str(tc)
@@ -139,7 +148,7 @@ def explore(kind, tk, n, r: Result, only=None):
 
 def literals(kind, tk, n, maxlen, r: Result):
     K = KEYS[tk][:n]
-    tc = ('set', tk) if kind == 'set' else ('map', tk, NAT)
+    tc = ('set', tk) if kind == 'set' else ('map', tk, VALS[kind][0])
     ctx = M.make_context()
     for ln in range(0, maxlen + 1):
         for seq in itertools.product(range(len(K)), repeat=ln):
@@ -147,7 +156,7 @@ def literals(kind, tk, n, maxlen, r: Result):
             if kind == 'set':
                 lit = [T.v_to_micheline(tk, k) for k in keys]
             else:
-                lit = [{'prim': 'Elt', 'args': [T.v_to_micheline(tk, k), {'int': str(i % 2)}]} for i, k in enumerate(keys)]
+                lit = [{'prim': 'Elt', 'args': [T.v_to_micheline(tk, k), T.v_to_micheline(VALS[kind][0], VALS[kind][1][i % 2])]} for i, k in enumerate(keys)]
             code = [P('PUSH', TY(tc), lit)]
             should = T.is_strictly_sorted(tk, keys)
             out, stack = M.run_impl(code, [], ctx)
@@ -175,8 +184,8 @@ def run_shard(spec, tier):
     r.ev(r.transitions)
     r.sample({'kind': kind, 'key_type': T.t_str(tk), 'n': n, 'history': [], 'op': 'SIZE', 'code': [P('SIZE')], 'state': []})
     K = KEYS[tk][:n]
-    last = T.sorted_set(tk, K) if kind == 'set' else tuple((k, 1) for k in T.sorted_set(tk, K))
-    tc = ('set', tk) if kind == 'set' else ('map', tk, NAT)
+    last = T.sorted_set(tk, K) if kind == 'set' else tuple((k, VALS[kind][1][1]) for k in T.sorted_set(tk, K))
+    tc = ('set', tk) if kind == 'set' else ('map', tk, VALS[kind][0])
     r.sample({'kind': kind, 'key_type': T.t_str(tk), 'n': n, 'history': ['...'], 'op': 'ITER', 'code': programs(kind, tk, K)[-1 if kind == 'set' else -4][1],
               'state': T.v_to_micheline(tc, last)})
     return r
@@ -192,7 +201,7 @@ def _tk(s):
 def replay(case):
     tk = _tk(case['key_type'])
     kind = case['kind']
-    tc = ('set', tk) if kind == 'set' else ('map', tk, NAT)
+    tc = ('set', tk) if kind == 'set' else ('map', tk, VALS[kind][0])
     r = Result()
     if 'literal' in case:
         code = [P('PUSH', TY(tc), case['literal'])]
@@ -215,7 +224,7 @@ def replay(case):
 
 def observe(case):
     tk = _tk(case['key_type'])
-    tc = ('set', tk) if case['kind'] == 'set' else ('map', tk, NAT)
+    tc = ('set', tk) if case['kind'] == 'set' else ('map', tk, VALS[case['kind']][0])
     state = T.v_from_micheline(tc, case['state'])
     out, stack = M.run_impl(case['code'], [(tc, state)], None)
     return [out, [repr(x) for x in stack.items]]
